@@ -13,6 +13,7 @@ EXTENDS SlottedCC, Json
 Obs ==
   [key   |-> SetToSortSeq(eqs, <),
    lab   |-> [i \in U |-> ClassOf(part, eqs, i)],
+   plab  |-> [ti \in DOMAIN TermPool |-> part[idx[TermPool[ti]]]],   \* raw class of every pool term (inserted or not)
    ncls  |-> NumClasses(part, eqs),
    slots |-> [ti \in DOMAIN TermPool |-> SetToSortSeq(NonRed(part, TermPool[ti]), <)],
    syms  |-> [ti \in DOMAIN TermPool |-> Cardinality(Syms(part, TermPool[ti]))],
